@@ -90,6 +90,11 @@ func (e *Exec) addObl(s *State, name, kind string, goal *Node, pos token.Pos, te
 	if e.quiet > 0 {
 		return
 	}
+	if kind == "safety" && e.fc != nil && e.fc.SafetyKinds == nil && strings.Contains(name, "/safety/chan-") {
+		// channel-close panics are opt-in (`safety chan-send chan-close`): they need the closed state of
+		// the channels to be specified
+		return
+	}
 	if kind == "safety" && e.fc != nil && e.fc.SafetyKinds != nil {
 		// name = <func>/safety/<kind>#n
 		ok := false
@@ -806,6 +811,9 @@ func (e *Exec) strChars(x *Node) *Node {
 }
 
 func (e *Exec) execInstr(s *State, ins ssa.Instruction) {
+	if len(s.privObjs) > 0 {
+		e.noteEscapes(s, ins)
+	}
 	if specs := e.siteAsserts[ins]; len(specs) > 0 {
 		e.runSiteSpecs(s, ins, specs, true)
 	}
@@ -820,6 +828,9 @@ func (e *Exec) execInstr(s *State, ins ssa.Instruction) {
 				s.priv = append(s.priv, privCell{r, x})
 			}
 			e.initGhostFor(s, r, x.Type())
+			if e.v.hasOwnGhost(x.Type()) {
+				s.privObjs = append(s.privObjs, privObj{r, x.Type()})
+			}
 		} else {
 			e.setReg(x, &LocalPtr{Cell: x})
 			s.locals[x] = e.zeroValue(t)
@@ -910,7 +921,10 @@ func (e *Exec) execInstr(s *State, ins ssa.Instruction) {
 	case *ssa.MakeMap:
 		e.setReg(x, e.makeMap(s, x))
 	case *ssa.MakeChan:
-		e.setReg(x, e.newRef(s))
+		r := e.newRef(s)
+		e.setReg(x, r)
+		ch := e.heap(s, chanClosedHeap, chanClosedSort)
+		e.setHeap(s, chanClosedHeap, Store(ch, r, tFalse), r)
 	case *ssa.Lookup:
 		e.setReg(x, e.lookup(s, x))
 	case *ssa.MapUpdate:
@@ -1475,4 +1489,92 @@ func rangeIndexInvariant(h *ssa.BasicBlock) *Clause {
 		rangeIdxClause = &Clause{Text: "-1 <= rangeindex (implicit for range loops)", Expr: n}
 	}
 	return rangeIdxClause
+}
+
+// noteEscapes: an object allocated by this activation stops being private when its reference is
+// stored anywhere but a local variable, passed to a call, captured, returned, sent or boxed.
+func (e *Exec) noteEscapes(s *State, ins ssa.Instruction) {
+	var vals []ssa.Value
+	switch x := ins.(type) {
+	case *ssa.Store:
+		local := false
+		func() {
+			defer func() { recover() }()
+			switch p := e.val(s, x.Addr).(type) {
+			case *LocalPtr:
+				local = true
+			case *Node:
+				for _, pc := range s.priv {
+					if pc.ref == p {
+						local = true
+					}
+				}
+			}
+		}()
+		if !local {
+			vals = append(vals, x.Val)
+		}
+	case *ssa.MapUpdate:
+		vals = append(vals, x.Value, x.Key)
+	case *ssa.Call:
+		vals = append(vals, x.Call.Args...)
+		if x.Call.IsInvoke() {
+			vals = append(vals, x.Call.Value)
+		}
+	case *ssa.Go:
+		vals = append(vals, x.Call.Args...)
+	case *ssa.Defer:
+		vals = append(vals, x.Call.Args...)
+	case *ssa.Return:
+		vals = append(vals, x.Results...)
+	case *ssa.Send:
+		vals = append(vals, x.X)
+	case *ssa.MakeInterface:
+		vals = append(vals, x.X)
+	case *ssa.Phi:
+		vals = append(vals, x.Edges...)
+	case *ssa.Select:
+		for _, st := range x.States {
+			if st.Send != nil {
+				vals = append(vals, st.Send)
+			}
+		}
+	case *ssa.MakeClosure:
+		for _, b := range x.Bindings {
+			// the binding is the variable cell: what it currently holds becomes reachable
+			func() {
+				defer func() { recover() }()
+				t := derefType(b.Type())
+				if _, isPtr := t.Underlying().(*types.Pointer); isPtr {
+					if n, ok := e.readLoc(s, e.resolve(e.val(s, b), t)).(*Node); ok {
+						e.dropPrivObj(s, n)
+					}
+				}
+			}()
+		}
+		return
+	default:
+		return
+	}
+	for _, v := range vals {
+		func() {
+			defer func() { recover() }()
+			if _, isPtr := v.Type().Underlying().(*types.Pointer); !isPtr {
+				return
+			}
+			if n, ok := e.val(s, v).(*Node); ok {
+				e.dropPrivObj(s, n)
+			}
+		}()
+	}
+}
+
+func (e *Exec) dropPrivObj(s *State, ref *Node) {
+	var keep []privObj
+	for _, po := range s.privObjs {
+		if po.ref != ref {
+			keep = append(keep, po)
+		}
+	}
+	s.privObjs = keep
 }
